@@ -13,13 +13,15 @@ Inductive case :=
 | CTxn (k : tkind) (initial : list (bytes * N)) (ops : list op) (e : ending) (o : tobs).
 
 (* compact constructors used by the case files *)
-Definition Q (sc : scope) (pattern : bytes) (has_route : bool) (params : list (bytes * bytes)) (dump : bytes) : reqinfo :=
-  {| q_scope := sc; q_pattern := pattern; q_has_route := has_route; q_params := params; q_dump := dump |}.
+Definition Q (sc : scope) (pattern : bytes) (has_route : bool) (params : list (bytes * bytes)) (dump : bytes)
+           (enabled : bool) : reqinfo :=
+  {| q_scope := sc; q_pattern := pattern; q_has_route := has_route; q_params := params; q_dump := dump;
+     q_log_enabled := enabled |}.
 Definition Rc (msg : bytes) (attrs : list (bytes * aval)) : logrec := {| r_msg := msg; r_attrs := attrs |}.
 Definition PO (esc : option N) (pre untouched wrote : bool) (status : Z) (body : bytes)
-           (recs : list logrec) (fu wr rs : bool) : pobs :=
+           (recs : list logrec) (visible fu wr rs : bool) : pobs :=
   {| o_escaped := esc; o_pre_started := pre; o_untouched := untouched; o_wrote := wrote; o_status := status;
-     o_body := body; o_records := recs; o_followup_ok := fu; o_write_ok := wr; o_routes_same := rs |}.
+     o_body := body; o_records := recs; o_records_visible := visible; o_followup_ok := fu; o_write_ok := wr; o_routes_same := rs |}.
 Definition TO (out : tout) (routes : list (bytes * N)) (agree fu wr : bool) : tobs :=
   {| t_out := out; t_routes := routes; t_views_agree := agree; t_followup_ok := fu; t_write_ok := wr |}.
 
@@ -44,7 +46,7 @@ Definition model_agrees (c : case) : bool :=
           && Bool.eqb (u_wrote pre) (o_pre_started o)
           && Bool.eqb (under_eqb pre w) (o_untouched o)
           && Bool.eqb (u_wrote w) (o_wrote o) && (u_status w =? o_status o) && bytes_eqb (u_body w) (o_body o)
-          && list_eqb rec_agrees log (o_records o)
+          && (negb (o_records_visible o) || list_eqb rec_agrees log (o_records o))
           && o_followup_ok o && o_write_ok o && o_routes_same o     (* ServeHTTP touches neither lock nor tree *)
       end
   | CTxn k initial ops e o =>
@@ -59,11 +61,11 @@ Definition model_agrees (c : case) : bool :=
 Definition case_spec_ok (c : case) : bool :=
   match c with
   | CPanic q reqline headers _ (Some (v, vid)) o =>
-      spec_panic_ok (q_scope q) (q_pattern q) (q_params q) reqline headers v vid o
+      spec_panic_ok (q_scope q) (q_pattern q) (q_params q) reqline headers (q_log_enabled q) v vid o
   | CPanic _ _ _ _ None o =>
       (* control: no panic — nothing escapes, nothing is logged, the response is the handler's *)
       usable o && match o_escaped o with None => true | _ => false end
-      && o_untouched o && match o_records o with [] => true | _ => false end
+      && o_untouched o && (negb (o_records_visible o) || match o_records o with [] => true | _ => false end)
   | CTxn k initial _ e o =>
       spec_txn_ok initial (match e with EndPanic id => Some id | _ => None end)
                   (match k, e with TView, _ => true | _, EndOk => false | _, _ => true end) o
